@@ -405,4 +405,18 @@ theorem isForked_code_is_model (s : Option Nat) (head : Nat) :
    Aqv.Lemmas.Translated.ChainConfig_IsByzantium_translated_eq s head,
    Aqv.Lemmas.Translated.ChainConfig_IsConstantinople_translated_eq s head⟩
 
+/-- tie by translation, remaining block-number switches of params/config.go: IsEIP150 / IsEIP155 / IsEIP158 / IsDAOFork are
+    `isForked(c.<X>Block, num)`.  The field each switch reads is pinned by a named argument (`c_EIP150Block := …`): if the code
+    starts reading another block number the statement no longer elaborates. -/
+theorem eip_switches_code_is_model (blk : Option Nat) (num : Nat) :
+    Aqv.Gen.Translated.ChainConfig_IsEIP150 (c_EIP150Block := blk.map Nat.cast) (some (num : Int)) = some (isForked blk num) ∧
+    Aqv.Gen.Translated.ChainConfig_IsEIP155 (c_EIP155Block := blk.map Nat.cast) (some (num : Int)) = some (isForked blk num) ∧
+    Aqv.Gen.Translated.ChainConfig_IsEIP158 (c_EIP158Block := blk.map Nat.cast) (some (num : Int)) = some (isForked blk num) ∧
+    Aqv.Gen.Translated.ChainConfig_IsDAOFork (c_DAOForkBlock := blk.map Nat.cast) (some (num : Int)) = some (isForked blk num) :=
+  Aqv.Lemmas.Translated.ChainConfig_eipSwitches_translated_eq blk num
+
+example : Aqv.Gen.Translated.ChainConfig_IsEIP158 (c_EIP158Block := some 36050) (some 36050) = some true ∧
+    Aqv.Gen.Translated.ChainConfig_IsEIP158 (c_EIP158Block := some 36050) (some 36049) = some false ∧
+    Aqv.Gen.Translated.ChainConfig_IsEIP158 (c_EIP158Block := none) (some 1) = some false := by decide
+
 end Aqv.Props.C08
